@@ -28,7 +28,7 @@ ENV = dict(os.environ)
 ENV["CARGO_NET_OFFLINE"] = "true"
 ENV.pop("RUSTFLAGS", None)
 
-KANI_FLAGS = ["-Z", "c-ffi", "-Z", "stubbing", "-Z", "unstable-options"]
+KANI_FLAGS = ["-Z", "c-ffi", "-Z", "stubbing", "-Z", "unstable-options", "-Z", "restrict-vtable"]
 # flags of Kani 0.68's own cbmc invocation (--no-memory-safety-checks --no-overflow-checks)
 CBMC_FLAGS = ["--no-malloc-may-fail", "--no-undefined-shift-check", "--no-signed-overflow-check", "--no-bounds-check",
               "--no-pointer-check", "--no-div-by-zero-check", "--no-self-loops-to-assumptions",
@@ -37,7 +37,7 @@ CBMC_FLAGS = ["--no-malloc-may-fail", "--no-undefined-shift-check", "--no-signed
 
 class Harness:
     def __init__(self, name, unwind=3, unwindset=None, timeout=900, mem_gb=14, kind="proof",
-                 note="", bounds=None, cbmc_args=None, focus=None):
+                 note="", bounds=None, cbmc_args=None, focus=None, covers=None):
         self.name = name
         self.unwind = unwind
         self.unwindset = list(unwindset or [])   # (regex over "<file> :: <function>", bound)
@@ -48,6 +48,7 @@ class Harness:
         self.bounds = bounds or {}
         self.cbmc_args = cbmc_args or []
         self.focus = focus      # property id whose tags are decided (set by the driver)
+        self.covers = covers or []   # COVER/ witnesses that must be satisfied in this harness
 
     @property
     def short(self):
@@ -55,7 +56,7 @@ class Harness:
 
 
 DEFAULT_UNWINDSET = [
-    (r"src/mk/", 13),                   # model-kernel table scans (NFD = 12)
+    (r"src/mk/", 17),                   # model-kernel table scans (NFD = 16)
 ]
 DEFAULT_RECURSION = [
     (r"drop_glue::<std::io::Error>$", 1),
@@ -110,14 +111,53 @@ def link_goto(symtab):
     out = symtab[:-len(".symtab.out")] + ".vk.out"
     mangled = "_" + os.path.basename(symtab)[:-len(".symtab.out")].split("__", 1)[1]
     kani_lib = os.path.expanduser("~/.kani/kani-0.68.0/library/kani/kani_lib.c")
+    # vtable restrictions (-Z restrict-vtable): a virtual call may only reach the
+    # methods of types actually coerced to that trait object in the program.
+    # Without it CBMC's function-pointer removal lets `drop(Box<dyn Error>)` inside
+    # io::Error's drop glue reach every drop glue in the binary.
+    rfile = symtab[:-len(".symtab.out")] + ".restrictions.json"
+    linked = symtab[:-len(".symtab.out")] + ".vk.linked-restrictions.json"
+    restrict_step = []
+    if os.path.exists(rfile):
+        r = json.load(open(rfile))
+        poss = {}
+        for pm in r.get("possible_methods", []):
+            tm = pm["trait_method"]
+            poss.setdefault((tm["trait_name"], tm["vtable_idx"]), []).extend(pm.get("possibilities", []))
+        m = {}
+        for cs in r.get("call_sites", []):
+            tm = cs["trait_method"]
+            m["%s.%s" % (cs["function_name"], cs["label"])] = sorted(set(poss.get((tm["trait_name"], tm["vtable_idx"]), [])))
+        # io::Error lives in core since 2026 and drops its boxed payload through a
+        # plain function pointer (CustomOwner::outer_drop), which -Z restrict-vtable
+        # does not cover: pin it to the only function ever stored there.
+        st = subprocess.run(["goto-instrument", "--show-symbol-table", symtab], stdout=subprocess.PIPE,
+                            stderr=subprocess.DEVNULL).stdout.decode("utf-8", "replace")
+        owner_drop, targets = None, []
+        cur = None
+        for ln in st.split("\n"):
+            if ln.startswith("Symbol......:"):
+                cur = ln.split(":", 1)[1].strip()
+            elif ln.startswith("Pretty name.:") and cur and "::" not in cur.replace("::", "", 0)[0:0]:
+                pn = ln.split(":", 1)[1].strip()
+                if pn == "<core::io::CustomOwner as std::ops::Drop>::drop":
+                    owner_drop = cur
+                elif "custom_owner_from_box::drop_box_raw::<core::io::Custom>" in pn and "::1::" not in cur and "$" not in cur:
+                    targets.append(cur)
+        if owner_drop and targets:
+            m[owner_drop + ".function_pointer_call.1"] = sorted(set(targets))
+        json.dump(m, open(linked, "w"))
+        restrict_step = [["goto-instrument", "--function-pointer-restrictions-file", linked, out, out]]
     steps = [
         ["goto-cc", symtab, kani_lib, "-o", out],
         ["goto-cc", out, "--function", mangled, "-o", out],
         ["goto-instrument", "--add-library", "--no-malloc-may-fail", out, out],
+    ] + restrict_step + [
         ["goto-instrument", "--generate-function-body-options", "assert-false-assume-false",
          "--generate-function-body", ".*", "--drop-unused-functions", out, out],
         ["goto-instrument", "--ensure-one-backedge-per-target", out, out],
     ]
+    steps = [st for st in steps if st]
     for st in steps:
         p = subprocess.run(st, stdout=subprocess.PIPE, stderr=subprocess.STDOUT)
         if p.returncode != 0:
@@ -154,20 +194,21 @@ def recursion_ids(symtab_txt, patterns):
 
 
 def repo_functions(symtab_txt):
-    """pretty names of code symbols whose location is in the mounted /repo sources"""
+    """pretty names of the compiled functions whose body comes from the mounted /repo sources"""
     out = set()
     for b in symtab_txt.split("\n\n"):
-        if "/.work/gen/" not in b:
+        if "/.work/gen/" not in b or 'irep("(\\"compiled\\")")' not in b:
             continue
-        m = re.search(r"Pretty name.: (.*)", b)
-        t = re.search(r"Type........: (.*)", b)
-        if m and t and "->" in t.group(1) or (m and t and t.group(1).startswith("code")):
-            nm = m.group(1).strip()
-            if "vh_" in nm or "::1::" in nm or not nm or "{closure" in nm and False:
-                continue
-            if re.search(r"::var_\d+|::_\d+$", nm):
-                continue
-            out.add(nm)
+        m = re.search(r"Pretty name.: (.+)", b)
+        if not m:
+            continue
+        nm = m.group(1).strip()
+        if "vh_" in nm:
+            continue
+        nm = re.sub(r"/verif/\.work/gen/", "src/", nm)
+        if not re.match(r"^<?(popen|posix|communicate|builder|os_common)::", nm) or "std::iter::" in nm:
+            continue
+        out.add(nm[:160])
     return sorted(out)
 
 
@@ -221,8 +262,10 @@ def select_properties(props, focus):
 
 def parse_results(out):
     res = {}
-    for m in re.finditer(r"^\[(.*?)\] line \d+ (.*): (SUCCESS|FAILURE|UNKNOWN)$", out, re.M):
-        res[m.group(1)] = m.group(3)
+    descs = {}
+    for m in re.finditer(r"^\[(.*?)\] line (\d+) (.*): (SUCCESS|FAILURE|UNKNOWN)$", out, re.M):
+        res[m.group(1)] = m.group(4)
+        descs[m.group(1)] = (m.group(3), int(m.group(2)))
     # properties without line info
     for m in re.finditer(r"^\[(.*?)\] (?!line )(.*): (SUCCESS|FAILURE|UNKNOWN)$", out, re.M):
         res.setdefault(m.group(1), m.group(3))
@@ -248,7 +291,7 @@ def parse_results(out):
         verdict = "SUCCESSFUL"
     elif "VERIFICATION FAILED" in out:
         verdict = "FAILED"
-    return res, st, verdict
+    return res, st, verdict, descs
 
 
 def run_cbmc(h, goto, focus, want_trace=False, only_props=None):
@@ -277,7 +320,7 @@ def run_cbmc(h, goto, focus, want_trace=False, only_props=None):
     if only_props is not None:
         sel = [p for p in sel if p["name"] in only_props]
     byname = {p["name"]: p for p in sel}
-    cmd = ["cbmc"] + CBMC_FLAGS + ["--unwind", str(h.unwind)]
+    cmd = ["cbmc"] + CBMC_FLAGS + ["--verbosity", "8", "--unwind", str(h.unwind)]
     if uw:
         cmd += ["--unwindset", ",".join(uw)]
     for p in sel:
@@ -290,7 +333,7 @@ def run_cbmc(h, goto, focus, want_trace=False, only_props=None):
     os.makedirs(WORK + "/logs", exist_ok=True)
     with open(log, "w") as f:
         f.write(" ".join(cmd[:40]) + " ...\n" + out)
-    results, stats, verdict = parse_results(out)
+    results, stats, verdict, descs = parse_results(out)
     res["stats"] = stats
     res["cbmc_s"] = round(dt, 1)
     res["log"] = log
@@ -312,6 +355,10 @@ def run_cbmc(h, goto, focus, want_trace=False, only_props=None):
             reach[p["id"]] = (status == "FAILURE")
     for name, status in results.items():
         p = byname.get(name)
+        if not p and (".unwind." in name or name.endswith(".recursion")):
+            # unwinding / recursion assertions are generated during symex: not listed up front
+            d0, ln = descs.get(name, ("unwinding assertion", 0))
+            p = {"name": name, "file": name.rsplit(".unwind.", 1)[0], "line": ln, "func": name, "desc": d0, "id": None, "cls": "unwind"}
         if not p or p["cls"] == "reachability_check":
             continue
         d = p["desc"]
@@ -331,7 +378,7 @@ def run_cbmc(h, goto, focus, want_trace=False, only_props=None):
         elif status == "FAILURE":
             other_fail.append({"desc": d, "loc": "%s:%d in %s" % (p["file"], p["line"], p["func"][:80]), "name": name, "cls": p["cls"]})
     res.update(tagged_fail=tagged_fail, other_fail=other_fail[:12], covers_sat=sorted(set(covers_sat)),
-               covers_unsat=sorted(set(covers_unsat) - set(covers_sat)), decided_tags=sorted(decided_tags),
+               covers_unsat=sorted(c for c in (set(covers_unsat) - set(covers_sat)) if c in h.covers) + sorted(c for c in h.covers if c not in covers_sat and c not in covers_unsat), decided_tags=sorted(decided_tags),
                unreachable_tags=sorted(unreachable_tags - decided_tags))
     missing = [p["name"] for p in sel if p["name"] not in results]
     res["wall_s"] = round(time.time() - t0, 1)
